@@ -18,6 +18,7 @@ import time
 
 from .. import drive, env, httpfault, sched, world
 
+SPELLING = False  # this monitor controls the spelling of path arguments itself
 LEVEL = "exploration"
 RULE = (
     "sweep case = (command incl. failing ones and --help/--version, tool ascmhl|ascmhl-debug) x server behaviour (immediate / "
